@@ -245,9 +245,16 @@ Section Str.
   Variable fp : str -> option F.
   Variable pr : N -> bool.
 
-  Lemma roundtrip_str_gen u s : Forall (okc pr u) s -> parse_attr F fp u (repr_str pr s) = PStr s.
+  Lemma in_range s : Forall (fun c => c < 1114112) s -> existsb (N.leb 1114112) s = false.
   Proof.
-    intros H. unfold parse_attr, repr_str.
+    induction 1 as [| c s Hc Hs IH]; [reflexivity |]. cbn [existsb]. rewrite IH.
+    destruct (N.leb_spec 1114112 c); [lia | reflexivity].
+  Qed.
+
+  Lemma roundtrip_str_gen u s : Forall (fun c => c < 1114112) s -> Forall (okc pr u) s ->
+    parse_attr F fp u (repr_str pr s) = PStr s.
+  Proof.
+    intros HR H. unfold parse_attr, repr_str.
     pose proof (choose_quote_cases s) as Hq. set (q := choose_quote s) in *.
     assert (Hm : memN cSQ (q :: flat_map (repr_char pr q) s ++ [q])
                  || memN cDQ (q :: flat_map (repr_char pr q) s ++ [q]) = true).
@@ -255,7 +262,8 @@ Section Str.
     rewrite Hm.
     assert (Hqq : negb ((q =? cSQ) || (q =? cDQ)) = false) by (destruct Hq as [-> | ->]; reflexivity).
     rewrite Hqq. rewrite last_is_snoc. cbn [negb]. rewrite removelast_last.
-    rewrite no_quote_body by assumption. rewrite expand_repr_body by assumption. reflexivity.
+    rewrite no_quote_body by assumption. rewrite expand_repr_body by assumption.
+    cbv zeta. rewrite in_range by assumption. reflexivity.
   Qed.
 End Str.
 
